@@ -68,6 +68,12 @@ def check(rep, tier, rng):
                     if nviol <= 5:
                         rep.violation({"kind": "generator-panicked", "api": what, "text": c["text"], "observed": line,
                                        "how": "echo \"ast <hex of text>\" | harness/front/target/debug/fxfront"})
+        # the model parses with the grammar regenerated from src/xdr.pest (T0): a text that grammar rejects must be Err
+        if model == "err" and impl.startswith("ok"):
+            nviol += 1
+            if nviol <= 5:
+                rep.violation({"kind": "grammar-rejects-text-but-ok", "text": c["text"], "ast": impl[:200], "model": model,
+                               "how": "echo \"ast <hex of text>\" | harness/front/target/debug/fxfront"})
         # a text the grammar rejects must be Err from both entry points
         if impl == "err" and not g.startswith("err"):
             nviol += 1
@@ -92,4 +98,4 @@ def replay(rep, r):
     print("ast  :", impl[:300])
     print("model:", model[:300])
     print("gen  :", g[:100])
-    return 1 if (impl.startswith("panic") or g.startswith("panic")) else 0
+    return 1 if (impl.startswith("panic") or g.startswith("panic") or (model == "err" and not impl.startswith("err"))) else 0
